@@ -109,7 +109,7 @@ def shard_fn(shard, nshards, seed, tier, exe, nhist):
             else:
                 out.append(o)
         cases.append(("%d.%d" % (shard, i), out))
-    results, crashes = core.run_script(exe, cases, tag="c19")
+    results, crashes = core.run_script(exe, cases, tag="c19", env=core.ambient_env(sh, shard))
     cmdmap = dict(cases)
     for cr in crashes:
         kind, frame = cr.summary()
